@@ -134,3 +134,6 @@ Definition find_idx {A} (f : A -> bool) (l : list A) : list N := find_idx_from f
 
 (** strings given as byte lists (used by generated case files for non printable input) *)
 Definition s_of (l : list N) : string := string_of_list_ascii (map ascii_of_N l).
+
+(** list append usable while string_scope is open (where [++] is string append) *)
+Infix "+:+" := (@List.app _) (at level 60, right associativity).
